@@ -54,7 +54,8 @@ def redirectH : Handler := fun j => do
     kind := (← getStr s "kind"), scheme := (← getStr s "scheme"), httpVersion := (← getStr s "http_version"),
     hasWsResponseExt := (← getBool s "ws_ext"),
     hostHeader := (getOpt s "host_header").bind (fun h => h.getStr?.toOption) |>.map String.toList,
-    rootPath := (← getChars s "root_path"), rawPath := (← getChars s "raw_path"), query := (← getChars s "query") }
+    rootPath := (← getChars s "root_path"), rawPath := (← getChars s "raw_path"),
+    path := (← getChars s "path"), query := (← getChars s "query") }
   match redirect cfgHost sc with
   | .httpRedirect u => pure (Json.mkObj [("action", "http_redirect"), ("url", jsonOfChars u)])
   | .wsRedirect u => pure (Json.mkObj [("action", "ws_redirect"), ("url", jsonOfChars u)])
